@@ -195,6 +195,8 @@ func init() {
 		}
 
 		switch c["op"] {
+		case "history":
+			return histReplay(c)
 		case "hash":
 			key, detail = c08Case(fi, msg, unhb(c["dst"]))
 		case "expand":
